@@ -4,8 +4,9 @@ func init() { register("C12", checkC12) }
 
 func checkC12(p *Program, tier string) *Result {
 	r := newResult("C12")
-	r.Explanation = "R-PROVENANCE/R-ORDER: every accounting reply site in the server universe is enumerated and its status resolved to constants; a site that can carry AcctReplyStatusSuccess must be dominated by exactly one sink write (not in a loop) whose argument derives from json.Marshal of the AcctRequest decoded from this request's body, on the success edges of decode, marshal and (when the sink reports errors) the sink. R-FMT: the record is never in the format position of a printf-like sink method. R-JSON: no field type of AcctRequest customises its JSON/text encoding or carries tags, so the record holds exactly the decoded fields. R-REPLYCOUNT on the accounters gives 'exactly once before the reply'."
+	r.Explanation = "R-DECODEDONCE: every decoder stores each scalar field once, with what it read, and no module function writes through a pointer to it afterwards (no masking of reserved bits, no normalising setter). R-PROVENANCE/R-ORDER: every accounting reply site in the server universe is enumerated and its status resolved to constants; a site that can carry AcctReplyStatusSuccess must be dominated by exactly one sink write (not in a loop) whose argument derives from json.Marshal of the AcctRequest decoded from this request's body, on the success edges of decode, marshal and (when the sink reports errors) the sink. R-FMT: the record is never in the format position of a printf-like sink method. R-JSON: no field type of AcctRequest customises its JSON/text encoding or carries tags, so the record holds exactly the decoded fields. R-REPLYCOUNT on the accounters gives 'exactly once before the reply'."
 	ruleAccounting(p, r)
+	ruleDecodedOnce(p, r)
 	r.floor("R-PROVENANCE", 14)
 	r.floor("R-ORDER", 4)
 	r.floor("R-FMT", 1)
